@@ -69,6 +69,17 @@ type c12Caps struct {
 	tuples         []int
 	llgr           bool
 	ltuples        [][2]int
+	mp             []int // families of the Multiprotocol capabilities of the OPEN; nil = every configured family
+	noFwd          []int // families of tuples whose Forwarding State bit is clear
+}
+
+func (c c12Caps) fwd(f int) bool {
+	for _, x := range c.noFwd {
+		if x == f {
+			return false
+		}
+	}
+	return true
 }
 
 func (c c12Caps) line() string {
@@ -80,6 +91,14 @@ func (c c12Caps) line() string {
 	fmt.Fprintf(&b, " %d %d", c12b(c.llgr), len(c.ltuples))
 	for _, t := range c.ltuples {
 		fmt.Fprintf(&b, " %d %d", t[0], t[1])
+	}
+	fmt.Fprintf(&b, " %d", len(c.mp))
+	for _, f := range c.mp {
+		fmt.Fprintf(&b, " %d", f)
+	}
+	fmt.Fprintf(&b, " %d", len(c.noFwd))
+	for _, f := range c.noFwd {
+		fmt.Fprintf(&b, " %d", f)
 	}
 	return b.String()
 }
@@ -186,13 +205,18 @@ func (e *c12Env) stateMsg(next bgp.FSMState, typ fsmStateReasonType) {
 
 func c12Open(c c12Caps, fams []c12FamCfg) *bgp.BGPMessage {
 	caps := []bgp.ParameterCapabilityInterface{bgp.NewCapFourOctetASNumber(65002)}
-	for _, f := range fams {
-		caps = append(caps, bgp.NewCapMultiProtocol(c12Families[f.id]))
+	if c.mp == nil {
+		for _, f := range fams {
+			caps = append(caps, bgp.NewCapMultiProtocol(c12Families[f.id]))
+		}
+	}
+	for _, id := range c.mp {
+		caps = append(caps, bgp.NewCapMultiProtocol(c12Families[id]))
 	}
 	if c.gr {
 		tuples := []*bgp.CapGracefulRestartTuple{}
 		for _, t := range c.tuples {
-			tuples = append(tuples, bgp.NewCapGracefulRestartTuple(c12Families[t], true))
+			tuples = append(tuples, bgp.NewCapGracefulRestartTuple(c12Families[t], c.fwd(t)))
 		}
 		caps = append(caps, bgp.NewCapGracefulRestart(c.rbit, c.nbit, uint16(c.time), tuples))
 	}
@@ -466,7 +490,16 @@ func (e *c12Env) dump() string {
 			c12b(l.Enabled), c12b(l.Received), c12b(l.PeerRestartTimerExpired), c12b(l.Running), l.PeerRestartTime))
 	}
 	b.WriteString(strings.Join(fs, " "))
-	b.WriteString(" | ")
+	neg := []int{}
+	for _, rf := range e.p.negotiatedRFList() {
+		for i, f := range c12Families {
+			if rf == f {
+				neg = append(neg, i)
+			}
+		}
+	}
+	sort.Ints(neg)
+	fmt.Fprintf(&b, " | neg=%v | ", neg)
 	b.WriteString(c12Routes(e.adjIn()))
 	return b.String()
 }
@@ -534,7 +567,12 @@ func (o *c12Oracle) est(c c12Caps) {
 	if o.grNeg {
 		o.rt = c.time
 		for _, t := range c.tuples {
-			if o.configured(t) {
+			inMP := c.mp == nil
+			for _, m := range c.mp {
+				inMP = inMP || m == t
+			}
+			// a family the session does not carry cannot be restarted gracefully
+			if o.configured(t) && inMP {
 				o.grFams[t] = true
 			}
 		}
@@ -552,6 +590,18 @@ func (o *c12Oracle) est(c c12Caps) {
 	o.pendingEOR = map[int]bool{}
 	for f := range o.grFams {
 		o.pendingEOR[f] = true
+	}
+	if o.retaining {
+		// RFC 4724 4.2: "if the Forwarding State bit for a specific address family is not set in the newly
+		// received Graceful Restart Capability, or if a specific address family is not included in [it], or
+		// if the Graceful Restart Capability is not received in the re-established session at all, then the
+		// Receiving Speaker MUST immediately remove all the stale routes from the peer that it is retaining
+		// for that address family."
+		for key, r := range o.routes {
+			if r.stale && !(o.grFams[key[0]] && c.fwd(key[0])) {
+				delete(o.routes, key)
+			}
+		}
 	}
 	if o.retaining && len(o.pendingEOR) == 0 {
 		o.purgeStale()
@@ -782,15 +832,44 @@ func c12GenCfg(r *vRand) c12Cfg {
 
 func c12GenCaps(r *vRand, cfg c12Cfg) c12Caps {
 	c := c12Caps{gr: r.chance(85), nbit: r.chance(50), rbit: r.chance(25), time: r.pick(7, 12, 20, 30, 45, 60), llgr: r.chance(55)}
+	// the families the peer opens the session with: all configured ones, or (45%) a non-empty subset —
+	// a restarted peer may come back with fewer, more or other families than the lost session had
+	c.mp = []int{}
 	for _, f := range cfg.fams {
-		if r.chance(70) {
+		c.mp = append(c.mp, f.id)
+	}
+	if r.chance(45) {
+		sub := []int{}
+		for _, id := range c.mp {
+			if r.chance(50) {
+				sub = append(sub, id)
+			}
+		}
+		if len(sub) == 0 {
+			sub = []int{c.mp[r.intn(len(c.mp))]}
+		}
+		c.mp = sub
+	}
+	inMP := func(id int) bool {
+		for _, m := range c.mp {
+			if m == id {
+				return true
+			}
+		}
+		return false
+	}
+	for _, f := range cfg.fams {
+		if inMP(f.id) && r.chance(75) || !inMP(f.id) && r.chance(12) { // rarely: a GR tuple for a family the session does not carry
 			c.tuples = append(c.tuples, f.id)
+			if r.chance(15) {
+				c.noFwd = append(c.noFwd, f.id) // forwarding state not preserved for this family
+			}
 		}
 	}
 	lts := []int{25, 40, 55}
 	p := r.perm(3)
 	for i, f := range cfg.fams {
-		if r.chance(65) {
+		if inMP(f.id) && r.chance(65) {
 			c.ltuples = append(c.ltuples, [2]int{f.id, lts[p[i]]})
 		}
 	}
@@ -798,7 +877,7 @@ func c12GenCaps(r *vRand, cfg c12Cfg) c12Caps {
 		c.ltuples = nil
 	}
 	if !c.gr {
-		c.tuples, c.nbit, c.rbit = nil, false, false
+		c.tuples, c.nbit, c.rbit, c.noFwd = nil, false, false, nil
 	}
 	return c
 }
@@ -829,7 +908,15 @@ func c12GenHistory(r *vRand, cfg c12Cfg, maxEv int) []c12Ev {
 		now += d
 		evs = append(evs, c12Ev{op: "tick", a: [5]int{d}})
 	}
-	fam := func() int { return cfg.fams[r.intn(len(cfg.fams))].id }
+	fam := func() int { return caps.mp[r.intn(len(caps.mp))] } // only families of the current session
+	inSession := func(f int) bool {
+		for _, m := range caps.mp {
+			if m == f {
+				return true
+			}
+		}
+		return false
+	}
 	// what the scripted peer has announced so far, per (family, prefix): a peer whose configuration did not
 	// change re-announces byte-identical routes after a restart (the normal case), so a large share of the
 	// announcements repeats an earlier one exactly (same attributes, same next hop)
@@ -839,9 +926,11 @@ func c12GenHistory(r *vRand, cfg c12Cfg, maxEv int) []c12Ev {
 	announce := func() {
 		if len(lastKeys) > 0 && r.chance(55) {
 			k := lastKeys[r.intn(len(lastKeys))]
-			v := last[k]
-			evs = append(evs, c12Ev{op: "ann", a: [5]int{k.fam, k.key, v[0], v[1], 0}})
-			return
+			if inSession(k.fam) {
+				v := last[k]
+				evs = append(evs, c12Ev{op: "ann", a: [5]int{k.fam, k.key, v[0], v[1], 0}})
+				return
+			}
 		}
 		ver++
 		k := annKey{fam(), r.intn(3)}
@@ -869,6 +958,9 @@ func c12GenHistory(r *vRand, cfg c12Cfg, maxEv int) []c12Ev {
 		if len(lastKeys) > 0 && r.chance(70) {
 			for n := 1 + r.intn(3); n > 0; n-- {
 				k := lastKeys[r.intn(len(lastKeys))]
+				if !inSession(k.fam) {
+					continue
+				}
 				evs = append(evs, c12Ev{op: "ann", a: [5]int{k.fam, k.key, last[k][0], last[k][1], 0}})
 			}
 		}
@@ -946,6 +1038,8 @@ func c12RunHistory(t *testing.T, o *vOut, cfg c12Cfg, evs []c12Ev, corpus string
 		defer e.stop()
 		or := c12NewOracle(cfg)
 		judging := true
+		invariantFailed := false
+		var prevCaps c12Caps
 		var hdr strings.Builder
 		fmt.Fprintf(&hdr, "reset %d %d %d %d %d %d", c12b(cfg.gr), c12b(cfg.nb), c12b(cfg.ll), cfg.deferral, c12b(cfg.lr), len(cfg.fams))
 		for _, f := range cfg.fams {
@@ -959,6 +1053,43 @@ func c12RunHistory(t *testing.T, o *vOut, cfg c12Cfg, evs []c12Ev, corpus string
 			o.op("%s", line)
 			switch ev.op {
 			case "est":
+				if or.nSessions > 0 {
+					set := func(l []int) string { x := append([]int{}, l...); sort.Ints(x); return fmt.Sprint(x) }
+					if set(prevCaps.mp) != set(ev.caps.mp) {
+						o.stat("reest_mp_families_changed", 1)
+					}
+					if prevCaps.gr && !ev.caps.gr {
+						o.stat("reest_gr_dropped", 1)
+					}
+					if prevCaps.gr && ev.caps.gr && set(prevCaps.tuples) != set(ev.caps.tuples) {
+						o.stat("reest_gr_families_changed", 1)
+					}
+					if prevCaps.nbit != ev.caps.nbit {
+						o.stat("reest_nbit_changed", 1)
+					}
+					if fmt.Sprint(prevCaps.llgr, prevCaps.ltuples) != fmt.Sprint(ev.caps.llgr, ev.caps.ltuples) {
+						o.stat("reest_llgr_changed", 1)
+					}
+					staleFams := map[int]bool{}
+					for _, r0 := range e.adjIn() {
+						if r0.stale {
+							staleFams[r0.fam] = true
+						}
+					}
+					for f := range staleFams {
+						listed := false
+						for _, t := range ev.caps.tuples {
+							listed = listed || t == f
+						}
+						if ev.caps.gr && len(ev.caps.tuples) > 0 && !listed {
+							o.stat("reest_stale_routes_in_family_not_relisted", 1)
+						}
+						if listed && !ev.caps.fwd(f) {
+							o.stat("reest_stale_routes_in_family_fbit_clear", 1)
+						}
+					}
+				}
+				prevCaps = ev.caps
 				e.establish(ev.caps)
 				or.est(ev.caps)
 				if judging && cfg.lr && ev.caps.gr && ev.caps.rbit {
@@ -1055,6 +1186,27 @@ func c12RunHistory(t *testing.T, o *vOut, cfg c12Cfg, evs []c12Ev, corpus string
 					o.stat("obs_llgr_stale_route", 1)
 				}
 			}
+			// implementation-side invariant (independent of the event-log oracle): from the first session on,
+			// every Adj-RIB-In route — fresh or stale, session up or down — is of a family the LATEST session
+			// carried; so whichever family list a purge walks (configured or negotiated), nothing can hide
+			// outside it
+			if or.nSessions > 0 && !invariantFailed {
+				negotiated := map[int]bool{}
+				for _, rf := range e.p.negotiatedRFList() {
+					for i, f := range c12Families {
+						if rf == f {
+							negotiated[i] = true
+						}
+					}
+				}
+				for _, r0 := range adj {
+					if !negotiated[r0.fam] {
+						invariantFailed = true
+						o.fail("route-in-family-not-negotiated@"+ev.op, map[string]any{"corpus": corpus, "history": append([]string{}, log...), "observed": d})
+						break
+					}
+				}
+			}
 			if judging {
 				if kind := or.compare(adj, e.locRib()); kind != "" {
 					cls := kind + "@" + ev.op
@@ -1085,6 +1237,11 @@ var c12Corpus = []struct{ name, hist string }{
 	{"second-llgr-cycle-never-starts", "reset 1 0 1 33 0 2 0 1 1 1; goto 1 0; goto 2 0; goto 3 0; est 1 0 0 7 2 0 1 1 1 0 25; ann 1 0 2 0 0; loss 0; tick 40; goto 1 0; goto 2 0; goto 3 0; est 1 0 0 7 2 0 1 1 1 0 25; ann 1 1 3 0 0; eor 0; loss 0; tick 10"},
 	{"llgr-timer-removes-fresh-routes", "reset 1 0 1 33 0 1 0 1; goto 1 0; goto 2 0; goto 3 0; est 1 0 0 7 1 0 1 1 0 25; ann 0 0 2 0 0; loss 0; tick 20; goto 1 0; goto 2 0; goto 3 0; est 1 0 0 7 1 0 1 1 0 25; ann 0 1 3 0 0; tick 15"},
 	{"llgr-without-families", "reset 1 0 1 33 0 1 0 1; goto 1 0; goto 2 0; goto 3 0; est 1 0 0 7 1 0 1 0; ann 0 0 2 0 0; loss 0; tick 10; goto 1 0; goto 2 0; goto 3 0; est 1 0 0 7 1 0 1 0; ann 0 0 3 0 0; loss 0; tick 10"},
+	{"returns-with-fewer-mp-families", "reset 1 0 0 33 0 2 0 1 1 1; goto 1 0; goto 2 0; goto 3 0; est 1 0 0 20 2 0 1 0 0 2 0 1 0; ann 0 1 2 0 0; ann 1 1 3 0 0; ann 1 2 4 0 0; eor 0; eor 1; loss 0 0 0; tick 5; goto 1 0; goto 2 0; goto 3 0; est 1 0 0 20 1 0 0 0 1 0 0; ann 0 1 2 0 0; eor 0; tick 60"},
+	{"returns-with-other-mp-families", "reset 1 0 0 33 0 3 0 1 1 1 2 1; goto 1 0; goto 2 0; goto 3 0; est 1 0 0 20 2 0 1 0 0 2 0 1 0; ann 0 1 2 0 0; ann 1 1 3 0 0; loss 2 0 0; goto 1 0; goto 2 0; goto 3 0; est 1 0 0 20 2 1 2 0 0 2 1 2 0; ann 2 1 4 0 0; eor 1; eor 2; tick 60"},
+	{"returns-with-forwarding-bit-clear", "reset 1 0 0 33 0 2 0 1 1 1; goto 1 0; goto 2 0; goto 3 0; est 1 0 0 20 2 0 1 0 0 2 0 1 0; ann 0 1 2 0 0; ann 1 1 3 0 0; loss 0 0 0; goto 1 0; goto 2 0; goto 3 0; est 1 0 0 20 2 0 1 0 0 2 0 1 1 1; tick 1; eor 0; eor 1"},
+	{"returns-with-fewer-families-under-llgr", "reset 1 0 1 33 0 2 0 1 1 1; goto 1 0; goto 2 0; goto 3 0; est 1 0 0 7 2 0 1 1 2 0 50 1 60 2 0 1 0; ann 0 1 2 0 0; ann 1 1 3 0 0; loss 0 0 0; tick 10; goto 1 0; goto 2 0; goto 3 0; est 1 0 0 7 1 0 1 1 0 50 1 0 0; tick 1; eor 0; tick 100"},
+	{"gr-tuple-for-family-not-in-session", "reset 1 0 0 33 0 2 0 1 1 1; goto 1 0; goto 2 0; goto 3 0; est 1 0 0 20 2 0 1 0 0 2 0 1 0; ann 0 1 2 0 0; ann 1 1 3 0 0; loss 0 0 0; goto 1 0; goto 2 0; goto 3 0; est 1 0 0 20 2 0 1 0 0 1 0 0; ann 0 1 2 0 0; eor 0; tick 60"},
 	{"identical-reannouncement-is-fresh", "reset 1 0 0 33 0 1 0 1; goto 1 0; goto 2 0; goto 3 0; est 1 0 0 20 1 0 0 0; ann 0 1 2 0 0; ann 0 2 3 0 0; eor 0; loss 0; tick 5; goto 1 0; goto 2 0; goto 3 0; est 1 0 0 20 1 0 0 0; ann 0 1 2 0 0; eor 0; tick 30"},
 	{"identical-reannouncement-second-loss", "reset 1 0 0 33 0 1 0 1; goto 1 0; goto 2 0; goto 3 0; est 1 0 0 20 1 0 0 0; ann 0 1 2 0 0; loss 0; goto 1 0; goto 2 0; goto 3 0; est 1 0 0 20 1 0 0 0; ann 0 1 2 0 0; loss 2; goto 1 0; goto 2 0; goto 3 0; est 1 0 0 20 1 0 0 0; ann 0 1 2 0 0; eor 0"},
 	{"identical-reannouncement-under-llgr", "reset 1 0 1 33 0 2 0 1 1 1; goto 1 0; goto 2 0; goto 3 0; est 1 0 0 7 2 0 1 1 1 0 50; ann 0 1 2 0 0; ann 1 1 3 0 0; loss 0; tick 3; goto 1 0; goto 2 0; goto 3 0; est 1 0 0 7 2 0 1 1 1 0 50; ann 1 1 3 0 0; loss 0; tick 10; goto 1 0; goto 2 0; goto 3 0; est 1 0 0 7 2 0 1 1 1 0 50; ann 0 1 2 0 0; tick 50; eor 0; eor 1"},
@@ -1127,6 +1284,22 @@ func c12Parse(hist string) (c12Cfg, []c12Ev) {
 			c.llgr = n[i] == 1
 			for k := 0; k < n[i+1]; k++ {
 				c.ltuples = append(c.ltuples, [2]int{n[i+2+2*k], n[i+3+2*k]})
+			}
+			i = i + 2 + 2*n[i+1]
+			c.mp = []int{}
+			if i < len(n) {
+				for k := 0; k < n[i]; k++ {
+					c.mp = append(c.mp, n[i+1+k])
+				}
+				if j := i + 1 + n[i]; j < len(n) {
+					for k := 0; k < n[j]; k++ {
+						c.noFwd = append(c.noFwd, n[j+1+k])
+					}
+				}
+			} else {
+				for _, f := range cfg.fams {
+					c.mp = append(c.mp, f.id)
+				}
 			}
 			evs = append(evs, c12Ev{op: "est", caps: c})
 		default:
